@@ -92,6 +92,46 @@ def asynchb_twins(rep, tier, seed):
     rep.extra["asynchb_twin_flags"] = total
 
 
+def pasha_noisy_twins(rep, tier, seed):
+    """PASHA's cap-growth trigger (soft ranking with an estimated epsilon) only acts on noisy, crossing learning curves:
+    four lock-step workers on random real-valued tables in general position, reduction factor 2 (exact quantiles, so no
+    threshold is within round-off of a metric value), 30 trials, max resource 32.  Both twins are compared on every
+    suggestion, decision and on the cap; judged by specs/Twin.tla."""
+    import numpy as np
+    levels = [1, 2, 4, 8, 16]
+    conf_a = {"levels": levels, "maxt": 32, "nbr": 1, "perbr": False, "type": "pasha", "min": True, "mra": True, "ckpt": True,
+              "nthr": 0, "cap0": 2}
+    conf_b = dict(conf_a, min=False)
+    n = 100 if tier == "quick" else 600
+    runs = []
+    for k in range(n):
+        rs = np.random.RandomState(seed * 7001 + k)
+        base, decay = rs.uniform(0.0, 1.0, size=40), rs.uniform(0.5, 1.5, size=40)
+        noise = rs.normal(0.0, 0.25, size=(40, 33))
+        f = lambda t, e: float(base[t] + decay[t] / e + noise[t, e] / np.sqrt(e))
+        ea, eb = DA.Episode(conf_a, seed + k, log_rung_sizes=False), DA.Episode(conf_b, seed + k, log_rung_sizes=False)
+        ev = []
+        for step in range(260):
+            na, nb = len(ea.ev), len(eb.ev)
+            while len(ea.running()) < 4 and ea.next_id < 30:
+                before = len(ea.ev)
+                ea.suggest()
+                eb.suggest()
+                if len(ea.ev) == before:
+                    break
+            for t in sorted(ea.running()):
+                r = ea.lastr[t] + 1
+                ea.report(t, f(t, r), 0)
+                eb.report(t, -f(t, r), 0)
+            xa = [{kk: vv for kk, vv in e.items() if kk not in ("v",)} for e in ea.ev[na:]]
+            xb = [{kk: vv for kk, vv in e.items() if kk not in ("v",)} for e in eb.ev[nb:]]
+            ev.append({"same": xa == xb, "excused": False, "A": json.dumps(xa)[:200], "B": json.dumps(xb)[:200]})
+            if not ea.running() and ea.next_id >= 30:
+                break
+        runs.append({"ev": ev, "crashed": ea.crashed != eb.crashed, "meta": {"table_seed": seed * 7001 + k}})
+    rep.extra["pasha_noisy_twin_flags"] = twin.judge(rep, runs, "pasha-noisy-twins")
+
+
 def generic_twins(rep, tier, seed):
     """Schedulers without a rule-level monitor: outputs of the min twin and of the max twin (negated metric) compared
     step by step; judged by specs/Twin.tla."""
@@ -120,15 +160,15 @@ def generic_twins(rep, tier, seed):
 
 def moasha_twins(rep, tier, seed):
     from harness.props import c19
-    confs = [({"dim": 2, "mode": ["min", "max"], "max_t": 4, "grace": 1, "rf": 2, "brackets": 1}, ["max", "min"]),
-             ({"dim": 2, "mode": "min", "max_t": 9, "grace": 1, "rf": 3, "brackets": 2}, "max"),
+    confs = [({"dim": 2, "mode": ["min", "max"], "max_t": 8, "grace": 1, "rf": 2, "brackets": 1}, ["max", "min"]),
+             ({"dim": 2, "mode": "max", "max_t": 9, "grace": 1, "rf": 3, "brackets": 2}, "min"),
              ({"dim": 3, "mode": ["max", "min", "min"], "max_t": 8, "grace": 2, "rf": 2, "brackets": 1}, ["min", "max", "max"])]
     runs = []
     for ci, (sc, flipped) in enumerate(confs):
-        scheds = c19.moasha_schedules(seed * 29 + ci, 25 if tier == "quick" else 250, 14, 5, (0, 1, 2), sc["dim"])
+        scheds = c19.moasha_schedules(seed * 29 + ci, 150 if tier == "quick" else 1500, 28, 8, (0, 1, 2, 3), sc["dim"], maxskip=3)
         for k, s in enumerate(scheds):
             ca = c19.moasha_episode(sc, s, seed * 100 + k)
-            s2 = [dict(h, v=[-x for x in h["v"]]) for h in s]
+            s2 = [dict(h, v=[-x for x in h["v"]]) if h["a"] == "Report" else h for h in s]
             cb = c19.moasha_episode(dict(sc, mode=flipped), s2, seed * 100 + k)
             ev = [{"same": (x["f"], x["d"]) == (y["f"], y["d"]), "excused": False} for x, y in zip(ca, cb)]
             ev.append({"same": len(ca) == len(cb), "excused": False})
@@ -165,6 +205,7 @@ def run(rep, tier, seed):
     )
     twinmode_mc(rep, tier)
     asynchb_twins(rep, tier, seed)
+    pasha_noisy_twins(rep, tier, seed)
     generic_twins(rep, tier, seed)
     moasha_twins(rep, tier, seed)
     best_config_twins(rep, tier, seed)
